@@ -62,6 +62,9 @@ def lex_ok(v):
     return None
 
 
+REUSED = {"REQUEST_METHOD": "GET", "PATH_INFO": "/"}  # one environ dict for the whole run
+
+
 def check_value(W, rec, key, val, jar=False):
     http, sp = W["http"], W["sp"]
     rec.case()
@@ -94,6 +97,27 @@ def check_value(W, rec, key, val, jar=False):
         if r != val:
             rec.violation("C13/roundtrip-environ-differs", f"{h!r} parsed back {r!r}; {case}", case, monitor="roundtrip")
             return
+        # one environ dict seen again with another Cookie header (middleware rewriting the header, a reused environ):
+        # the answer is that of the header it carries now, and what a caller did to an earlier result is not in it
+        REUSED["HTTP_COOKIE"] = pair
+        first = http.parse_cookie(REUSED)
+        r = first.get(key)
+        if r != val or len(first) != 1:
+            rec.violation("C13/roundtrip-reused-environ-differs", f"{h!r} parsed back {list(first.items())!r}; {case}", case, monitor="roundtrip")
+            return
+        try:
+            first["injected"] = "1"
+        except TypeError:
+            pass
+        again = http.parse_cookie(REUSED)
+        if again.get(key) != val or len(again) != 1:
+            rec.violation("C13/parse-result-aliased", f"second parse of the same environ gave {list(again.items())!r}; {case}", case, monitor="roundtrip")
+            return
+        del REUSED["HTTP_COOKIE"]
+        if len(http.parse_cookie(REUSED)):
+            rec.violation("C13/roundtrip-reused-environ-differs", f"no Cookie header, parsed {list(http.parse_cookie(REUSED).items())!r}; {case}", case, monitor="roundtrip")
+            return
+        rec.observe("reused_environ_checks")
         r = http.parse_cookie(pair).get(key)
         if r != val:
             rec.violation("C13/roundtrip-str-differs", f"{h!r} parsed back {r!r}; {case}", case, monitor="roundtrip")
